@@ -10,7 +10,7 @@
 (* "nearest declaring ancestor" definition and that name resolution is a   *)
 (* function, and prints it as a JSON forest for the harness.               *)
 (***************************************************************************)
-EXTENDS XotTree, TLC, Json
+EXTENDS XotNsL2, TLC, Json
 
 CONSTANT Dump
 
@@ -34,14 +34,20 @@ Mk(ns1, D1, ns2, D2, ans) ==
        \o [j \in 1..n2 |-> NSN(D2[j][1], D2[j][2], e2)]
        \o <<AT(ans, "c", e2)>>
 
-VARIABLE F
+VARIABLES F, outer
+vars == <<F, outer>>
 
-Init == \E a0 \in DefaultChoices, ap \in PrefixChoices, aq \in PrefixChoices,
-           b0 \in DefaultChoices, bp \in PrefixChoices, bq \in PrefixChoices,
-           ns1 \in {"", "u1"}, ns2 \in {"", "u1", "u2"}, ans \in {"", "u1", "u2"} :
-        F = [n |-> Mk(ns1, Decls(a0, ap, aq), ns2, Decls(b0, bp, bq), ans), cons |-> TRUE, eo |-> FALSE]
-Next == UNCHANGED F
-Spec == Init /\ [][Next]_F
+\* Two steps, so that TLC's workers share the layouts: the initial states fix the outer element (72 of them, forest still
+\* empty), one step adds the inner element (432 layouts each).
+Blank == [n |-> <<>>, cons |-> TRUE, eo |-> FALSE]
+Init == /\ F = Blank
+        /\ outer \in [a0 : DefaultChoices, ap : PrefixChoices, aq : PrefixChoices, ns1 : {"", "u1"}]
+Next == /\ F = Blank
+        /\ outer' = outer
+        /\ \E b0 \in DefaultChoices, bp \in PrefixChoices, bq \in PrefixChoices,
+              ns2 \in {"", "u1", "u2"}, ans \in {"", "u1", "u2", XmlNs} :
+             F' = [n |-> Mk(outer.ns1, Decls(outer.a0, outer.ap, outer.aq), ns2, Decls(b0, bp, bq), ans), cons |-> TRUE, eo |-> FALSE]
+Spec == Init /\ [][Next]_vars
 
 \* second, independent definition of the in-scope bindings: for each prefix the nearest declaring ancestor-or-self
 Declaring(N, i, p) == SelectSeq(Ancestors(N, i), LAMBDA x : \E b \in DeclsAt(N, x) : b[1] = p)
@@ -57,5 +63,12 @@ ValidLayout == StructValidCore(F.n)
 UsableIffSpellable ==
     \A x \in {y \in Live(F.n) : F.n[y].k \in {"elem", "attr"}} :
         NameUsable(F.n, x) <=> \E p \in {"", "p", "q", "xml"} : ResolveQName(F.n, x, p) = F.n[x].ns /\ (F.n[x].k = "attr" /\ F.n[x].ns # "" => p # "")
-DumpState == Dump => PrintT("STATE " \o ToJson(F))
+\* L2 transcriptions of the crate's namespace machinery agree with L1 on every layout (XotNsL2)
+NsUniverse == {"u1", "u2", XmlNs}
+L2Scope == L2ScopeRefines(F.n) /\ L2PrefixForRefines(F.n, NsUniverse) /\ L2StackBalanced(F.n)
+L2Ser == L2SerRefines(F.n)
+L2Unres == L2UnresolvedRefines(F.n)
+L2CmpInv == L2CmpRefines(F.n)
+L2DedupInv == L2DedupRefines(F.n)
+DumpState == Dump /\ F # Blank => PrintT("STATE " \o ToJson(F))
 =============================================================================
